@@ -8,7 +8,7 @@ RULE = ("bounded-exhaustive: every buffer of length <= L (L=4 quick, 5 thorough)
         "{0,1,2,3,63,64,0x80,0xBF,0xC0,0xC1,0xFF,'a'} at every start offset; plus seeded structured buffers: label runs at the "
         "63-byte and 254/255-byte limits, pointer chains, pointers to self / forward / past the end / into the middle of labels, "
         "names ending exactly at the end of the buffer. non-trivial = the name decodes; distinct = distinct outputs")
-CASE_TIMEOUT = 120
+CASE_TIMEOUT = 600
 
 
 def structured(rng, n):
@@ -66,6 +66,31 @@ def cases(rng, tier):
             for off in range(0, n + 1):
                 out.append("NAME %s %x" % (h, off))
     out += structured(rng, 3000 if tier == "quick" else 30000)
+    # valid deep chains: pure pointer chains and label+pointer nesting (what a compressor emits for nested names)
+    for depth in (1, 2, 9, 10, 11, 12, 20, 64, 126):
+        buf = bytearray(b"\x00")
+        last = 0
+        for _ in range(depth):
+            here = len(buf)
+            buf += bytes([0xC0 | (last >> 8), last & 0xFF])
+            last = here
+        out.append("NAME %s %x" % (bytes(buf).hex(), last))
+        buf = bytearray(b"\x01z\x00")
+        last = 0
+        for i in range(depth):
+            here = len(buf)
+            buf += b"\x01" + bytes([97 + i % 26]) + bytes([0xC0 | (last >> 8), last & 0xFF])
+            last = here
+        out.append("NAME %s %x" % (bytes(buf).hex(), last))
+    # pointers with a non-zero high part (targets >= 256) and at the 14-bit limit
+    for tgt in (255, 256, 257, 0x123, 0x3FF, 0x400, 0x1234):
+        buf = bytearray(rng.bytes(tgt))
+        for i in range(len(buf)):
+            buf[i] = buf[i] | 0x40 if buf[i] < 0x40 else buf[i]   # no accidental valid names before the target
+        buf += b"\x03bar\x00"
+        here = len(buf)
+        buf += b"\x03foo" + bytes([0xC0 | (tgt >> 8), tgt & 0xFF])
+        out.append("NAME %s %x" % (bytes(buf).hex(), here))
     return out
 
 
